@@ -1,14 +1,22 @@
 """property -> correspondence suites"""
-from .suites import pure, diff, walk
+from .suites import pure, diff, walk, sync
 
 PROPS = {
+    "C05": {
+        "suites": [sync.SyncC05, diff.DiffSuite],
+        "assumptions": ["the hash function is uninterpreted: the harness's recording hasher feeds sha256 with (canonical header of the stat it is given) ++ bytes written"],
+    },
+    "C01": {
+        "suites": [sync.SyncC01, diff.DiffSuite],
+        "assumptions": ["Linux/ext4 syscall semantics as observed through an independent lstat snapshot"],
+    },
     "C09": {
         "suites": [walk.WalkSuite, pure.PathFn],
         "assumptions": ["os.ReadDir/filepath.WalkDir order = bytewise name order per directory (exercised by suite walk)",
                         "'stat matches lstat/readlink/listxattr' is an OS fact: decided by correspondence with an independent snapshot only"],
     },
     "C02": {
-        "suites": [diff.DiffSuite],
+        "suites": [diff.DiffSuite, sync.SyncC02],
         "assumptions": ["listing-level: the old-destination listing is what the receiver's walk of dest reports (tied by the resync suite)"],
     },
     "C12": {
